@@ -8,12 +8,18 @@ package main
 // where the property still holds.  Informational in the evidence; -selftest exits 2 on a noisy control.
 
 import (
+	"crypto/sha256"
+	"encoding/hex"
+	"encoding/json"
+	"io"
 	"os"
 	"os/exec"
 	"path/filepath"
+	"runtime"
 	"sort"
 	"strings"
 	"sync"
+	"syscall"
 )
 
 type negResult struct {
@@ -24,15 +30,124 @@ type negResult struct {
 	Note    string   `json:"note,omitempty"`
 }
 
+// runNegControls runs the rules of props ("all" or one id) on every refactored copy.  Loading and building a
+// copy costs the same whatever rules run afterwards, so the copies are always analysed with every property's
+// rules and the outcome is kept in <verif>/.cache keyed by the contents of the tree, of the refactorings, of the
+// known-findings file and of the checker binary: the thorough runs of the other properties on the same tree
+// reuse it.  The cache only ever short-cuts a recomputation; it is never needed and any change of an input
+// changes the key.
 func runNegControls(repo, dir, known, props string) []negResult {
+	all := negControlsAll(repo, dir, known)
+	if props == "all" || all == nil {
+		return all
+	}
+	out := make([]negResult, len(all))
+	for i, r := range all {
+		o := r
+		o.Fired = nil
+		for _, k := range r.Fired {
+			if strings.HasPrefix(k, props+"/") {
+				o.Fired = append(o.Fired, k)
+			}
+		}
+		o.Silent = len(o.Fired) == 0 && (r.Note == "" || !r.Applied)
+		out[i] = o
+	}
+	return out
+}
+
+func negCacheKey(repo string, files []string, known string) string {
+	h := sha256.New()
+	add := func(path string) {
+		f, err := os.Open(path)
+		if err != nil {
+			return
+		}
+		defer f.Close()
+		io.WriteString(h, path+"\x00")
+		io.Copy(h, f)
+	}
+	var src []string
+	filepath.Walk(repo, func(path string, info os.FileInfo, err error) error {
+		if err != nil {
+			return nil
+		}
+		if info.IsDir() {
+			if info.Name() == ".git" {
+				return filepath.SkipDir
+			}
+			return nil
+		}
+		if strings.HasSuffix(path, ".go") || info.Name() == "go.mod" || info.Name() == "go.sum" {
+			src = append(src, path)
+		}
+		return nil
+	})
+	sort.Strings(src)
+	for _, f := range src {
+		add(f)
+	}
+	for _, f := range files {
+		add(f)
+	}
+	add(known)
+	if self, err := os.Executable(); err == nil {
+		add(self)
+	}
+	return hex.EncodeToString(h.Sum(nil))[:24]
+}
+
+func negControlsAll(repo, dir, known string) []negResult {
+	const props = "all"
 	files, _ := filepath.Glob(filepath.Join(dir, "*.diff"))
 	sort.Strings(files)
 	if len(files) == 0 {
 		return nil
 	}
+	cacheDir := filepath.Join(filepath.Dir(dir), ".cache")
+	cacheFile := filepath.Join(cacheDir, "negctl-"+negCacheKey(repo, files, known)+".json")
+	// one computation at a time: thorough runs of several properties started together wait for the first one
+	// and then read its result
+	if os.MkdirAll(cacheDir, 0o755) == nil {
+		if lf, err := os.OpenFile(filepath.Join(cacheDir, "lock"), os.O_CREATE|os.O_RDWR, 0o644); err == nil {
+			if syscall.Flock(int(lf.Fd()), syscall.LOCK_EX) == nil {
+				defer syscall.Flock(int(lf.Fd()), syscall.LOCK_UN)
+			}
+			defer lf.Close()
+		}
+	}
+	if os.Getenv("VERIF_NO_CACHE") == "" {
+		if b, err := os.ReadFile(cacheFile); err == nil {
+			var cached []negResult
+			if json.Unmarshal(b, &cached) == nil && len(cached) == len(files) {
+				return cached
+			}
+		}
+	}
+	res := negControlsCompute(repo, files, known, props)
+	if os.MkdirAll(cacheDir, 0o755) == nil {
+		if b, err := json.Marshal(res); err == nil {
+			tmp := cacheFile + ".tmp"
+			if os.WriteFile(tmp, b, 0o644) == nil {
+				os.Rename(tmp, cacheFile)
+			}
+		}
+		// keep the directory small: one tree at a time matters
+		if ents, err := os.ReadDir(cacheDir); err == nil && len(ents) > 6 {
+			for _, e := range ents {
+				if p := filepath.Join(cacheDir, e.Name()); p != cacheFile && e.Name() != "lock" {
+					os.Remove(p)
+				}
+			}
+		}
+	}
+	return res
+}
+
+func negControlsCompute(repo string, files []string, known, props string) []negResult {
 	base, _ := violatedKeys(repo, props, known)
 	res := make([]negResult, len(files))
-	sem := make(chan struct{}, 4)
+	sem := make(chan struct{}, max(2, runtime.NumCPU()/2))
 	var wg sync.WaitGroup
 	for i, f := range files {
 		wg.Add(1)
